@@ -7,7 +7,8 @@ Writes /verif/seeded/<name>/{patch.diff, demo.py, meta.json} when the change is 
 import json, os, re, shutil, subprocess, sys, tempfile, time
 
 def sh(cmd, cwd=None, env=None, timeout=3600):
-    p = subprocess.run(cmd, shell=True, cwd=cwd, env=env, stdout=subprocess.PIPE, stderr=subprocess.STDOUT, universal_newlines=True, timeout=timeout)
+    p = subprocess.run(cmd, shell=True, cwd=cwd, env=env, stdout=subprocess.PIPE, stderr=subprocess.STDOUT, timeout=timeout)
+    p.stdout = p.stdout.decode("utf-8", "replace")
     return p.returncode, p.stdout
 
 def main():
